@@ -188,6 +188,9 @@ class NumericArray(list):
       if string[-1] == ",":
         raise gfapy.FormatError("Numeric array string ends with comma\n"+
           "String: {}".format(string))
+      if "," not in string:
+        raise gfapy.FormatError("Numeric array string contains no value\n"+
+          "String: {}".format(string))
     elems = string.split(",")
     subtype = elems[0]
     if subtype not in NumericArray.SUBTYPE:
